@@ -4,6 +4,7 @@ Line-protocol driver: one JSON request per line on stdin, one JSON answer per li
 import DimModel.Driver.Codec
 import DimModel.Spec.C01
 import DimModel.Spec.C02
+import DimModel.Spec.C07
 open Lean
 namespace DimModel.Driver
 open DimModel.Codec
@@ -37,6 +38,33 @@ def handle (op : String) (req : Json) : P (List (String × Json)) := do
     let ui ← userIndex (← fld req "index")
     let cfg ← indexCfg (fldD req "cfg" (Json.mkObj []))
     pure [("lib", encExcept encDimArray (Lib.take a ui cfg))]
+  | "reindex" => do
+    let as ← arrays req
+    let a ← match as with | a :: _ => pure a | [] => throw "no array"
+    let ax ← dimKey (← fld req "axis")
+    let newL ← listOf label (← fld req "labels")
+    let nk ← kind (← fld req "newkind")
+    let fk ← kind (← fld req "fillkind")
+    let re ← bool (fldD req "raise" (Json.bool false))
+    let m ← optOf side (fldD req "method" Json.null)
+    let r := Lib.reindexAxis a ax newL nk Cell.fill fk re m
+    -- the spec speaks about labels and values only
+    let spec : Json := match Lib.axisPos a.axes ax with
+      | .ok pos => Json.mkObj [("labels", Json.arr (newL.map encLabel).toArray),
+                               ("cells", Json.arr ((Spec.reindexVals a pos newL Cell.fill).toList.map encCell).toArray)]
+      | .error _ => Json.null
+    pure [("lib", encExcept encDimArray r), ("spec", spec)]
+  | "reindex_like" => do
+    let as ← arrays req
+    let a ← match as with | a :: _ => pure a | [] => throw "no array"
+    let tmpl ← listOf axis (← fld req "template")
+    let fk ← kind (← fld req "fillkind")
+    pure [("lib", encExcept encDimArray (Lib.reindexLike a tmpl Cell.fill fk false none))]
+  | "sort_axis" => do
+    let as ← arrays req
+    let a ← match as with | a :: _ => pure a | [] => throw "no array"
+    let ax ← dimKey (← fld req "axis")
+    pure [("lib", encExcept encDimArray (Lib.sortAxis a ax))]
   | _ => throw s!"unknown op {op}"
 
 def answer (line : String) : String :=
